@@ -567,8 +567,8 @@ class Parser:
         if t.k == "op" and t.v in ("~", "-", "+", "!", "&", "|", "^"):
             self.i += 1
             if t.v in ("~", "&", "|", "^") and self.t.k == "op" and self.t.v in ("&", "|", "^", "~") and \
-               (t.v + self.t.v) in ("~&", "~|", "~^", "^~"):
-                # ~& ~| ~^ ^~ reductions
+               (t.v + self.t.v) in ("~&", "~|", "~^", "^~") and self.t.pos == t.pos + 1:
+                # ~& ~| ~^ ^~ reductions (one token only when written without a space, 11.4.9 / 5.5)
                 raise SVUnsupported("line %d: operator %s%s" % (t.line, t.v, self.t.v))
             e = self.unary()
             op = t.v
